@@ -446,6 +446,9 @@ def run(ctx, rep):
     nb = c10.check_whole_reductions(ctx, RuleProxy(rep, 'C08.B', 'reductions::'), only=lambda mname: mname == MOD)
     rep.ok('C08.B', 'reductions::coalescent::scanned', '', {'reductions_without_axis_classified': nb})
     c10.check_first_sample_rows(ctx, RuleProxy(rep, 'C08.B', 'rows::'), rule='C08.B', only=lambda mname: mname == MOD)
+    # a model reads its parameters when it is evaluated: nothing taken from `<parameter>.tensor` at construction is used afterwards (C09.P rule on coalescent.py)
+    from props import c09
+    c09.check_snapshots(ctx, rep, rule='C08.M', modules=[MOD], floor=10)
     rep.explanation = (
         "The event bookkeeping that every coalescent implementation repeats (ten copies) is extracted by dataflow role — the vector handed to argsort, "
         "the permutation gathered into heights and marks, the mark vector's parts and their order against the height vector's parts, the lineage "
